@@ -55,8 +55,9 @@ End == /\ Is("End")
        /\ UNCHANGED <<sc, lying, srv, connected, stored, wires, failed>>
 \* the same client object is connected again, to a server that is conformant by now (Handshake!Again): from here on the
 \* rules of an honest exchange apply - a full exchange (HSDone), agreement, a stored session, a readable first request;
-\* what the abandoned attempt left in the store stays in the picture
-Retry == /\ Is("Retry") /\ lying' = FALSE /\ srv' = NoneKS /\ connected' = FALSE /\ failed' = FALSE /\ wires' = 0
+\* what the abandoned attempt left in the store stays in the picture.  The server may also lie again, in another way
+\* (Ev.lying): then the rules of a lying server apply to the second attempt
+Retry == /\ Is("Retry") /\ lying' = Ev.lying /\ srv' = NoneKS /\ connected' = FALSE /\ failed' = FALSE /\ wires' = 0
          /\ UNCHANGED <<sc, stored, bad>>
 Skip == /\ i <= Len(Trace) /\ Ev.e = "Other" /\ i' = i + 1 /\ UNCHANGED <<sc, lying, srv, connected, stored, wires, failed, bad>>
 Finish == /\ i = Len(Trace) + 1 /\ i' = i + 1 /\ ndJsonSerialize(IOEnv.VERIF_OUT, bad)
